@@ -281,8 +281,7 @@ Qed.
 Lemma buf_carry_le L b : buf_ok b -> lim_ok L b \/ root_ok L b ->
   (Z.of_N (carry_of b) <= Z.of_N L)%Z.
 Proof.
-  destruct b as [c|lim sz nl c|]; unfold carry_of; simpl; try lia.
-  intros (_ & Hle & _) [H|H]; lia.
+  destruct b as [c|lim sz nl c|]; unfold carry_of; simpl; try tauto; try lia.
 Qed.
 
 (** Every buffer on the stack holds at most [L] bytes. *)
@@ -503,7 +502,7 @@ Proof.
     eexists; split; [reflexivity|]. cbn [top below closed]. auto.
   - destruct (nth_error (t :: bl) k) as [p|] eqn:Hn; [|discriminate].
     assert (Hall : Forall2 buf_sim (t :: bl) (tu :: blu)) by (constructor; assumption).
-    destruct (Forall2_nth_some _ _ _ _ _ _ Hall Hn) as (pu & Hnu & _). rewrite Hnu.
+    destruct (Forall2_nth_some _ _ _ _ _ Hall Hn) as (pu & Hnu & _). rewrite Hnu.
     intros E; inversion E; subst. eexists; split; [reflexivity|].
     cbn [top below closed]. repeat split; simpl; auto.
   - intros E; inversion E; subst. eexists; split; [reflexivity|].
